@@ -15,6 +15,7 @@ mod sieve;
 mod iter;
 mod tensor;
 mod rand;
+mod geometry;
 
 use util::arg_value;
 
@@ -53,6 +54,7 @@ fn main() {
         ("tensor", "replay") => tensor::replay(&args[3], &out),
         ("tensor", "record") => tensor::record(seed, &tier, &out),
         ("rand", "record") => rand::record(seed, &tier, &out),
+        ("geometry", "record") => geometry::record(seed, &tier, &out),
         ("mint", "record") => mint::record(seed, &tier, &out),
         ("writer", "replay") => writer::replay(&args[3], &out),
         ("writer", "record") => writer::record(seed, &tier, &out),
